@@ -90,6 +90,16 @@ func runC05Round(cfg c05Cfg) c05Result {
 	if cfg.FileBacked {
 		mf = NewMemFile()
 		mf.logOn = false
+		// widen the windows inside Flush: now and then a write (or read) takes a little longer
+		var ioCount uint64
+		mf.park = func(kind byte, off int64, n int) {
+			c := atomic.AddUint64(&ioCount, 1)
+			if kind == 'W' && c%5 == 0 {
+				time.Sleep(time.Duration(20+c%7*15) * time.Microsecond)
+			} else if c%97 == 0 {
+				runtime.Gosched()
+			}
+		}
 		s, err = gkvlite.NewStore(mf)
 	} else {
 		s, err = gkvlite.NewStore(nil)
